@@ -105,7 +105,10 @@ def succ_fn_for(scen):
 
 EVENTS = ([("press", k) for k in KEYS[:2]] + [("release", KEYS[0])] + [("on", 1), ("on", 0)] +
           [("wimem", 0xFB, v) for v in IMR_VALUES] + [("wimem", 0xFC, 0), ("imem_or", 0xFC, 0x01), ("imem_or", 0xFC, 0x02),
-                                                      ("imem_or", 0xFC, 0x04), ("imem_or", 0xFC, 0x08)])
+                                                      ("imem_or", 0xFC, 0x04), ("imem_or", 0xFC, 0x08),
+                                                      # a status bit of a source the models do not generate themselves
+                                                      # (serial / external): still "a status bit becomes pending"
+                                                      ("imem_or", 0xFC, 0x10), ("imem_or", 0xFC, 0x40)])
 
 
 def build_script(nsteps, placed):
@@ -154,9 +157,13 @@ def check_run(res, model, scen, script, observations, err):
             "script": [list(o) for o in script if o[0] not in ("obs",)][:200]}
     seen = set()
     for clause, detail in mon.viol:
-        if clause in seen:
+        # one report per distinct SIGNATURE per run (not per clause: a recorded mechanism early in a run must not hide a
+        # different mechanism of the same clause later in the same run)
+        key = (clause, detail.get("flag_dropped_at"), bool(detail.get("on_press_did_not_arm")), detail.get("power"),
+               detail.get("in_handler"), tuple(detail.get("fields", ())))
+        if key in seen:
             continue
-        seen.add(clause)
+        seen.add(key)
         sig = {"clause": clause, "model": model, "main": scen["main"]}
         if "fields" in detail:
             sig["fields"] = detail["fields"]
@@ -166,6 +173,7 @@ def check_run(res, model, scen, script, observations, err):
         if clause == "pending_unmasked_request_not_delivered" and model == "py":
             # where the model's private pending flag was last dropped (distinguishes mechanisms of the same clause)
             sig["flag_dropped_at"] = detail.get("flag_dropped_at")
+            sig["on_press_did_not_arm"] = bool(detail.get("on_press_did_not_arm"))
         res.violation(sig, case, detail)
     return mon.stats["entries"] > 0
 
@@ -218,6 +226,14 @@ def run_key_during_handler(res, tier):
             for t in range(8, 30, 1 if tier == "thorough" else 3):
                 scen = scenario("busy", "zero", imr0, {"enabled": True, "mti": mti, "sti": 0}, kb_irq=True)
                 jobs.append((scen, build_script(150, {t: ("press", "KEY_Q")}), t))
+    # the ON key goes down at every step of a window that covers handler and main loop (ONK unmasked in the main loop)
+    onjobs = []
+    for body in ("ustack", "touch"):
+        for mti in (9, 5):
+            for t in range(8, 24, 1 if tier == "thorough" else 2):
+                scen = scenario("busy", body, 0x8F, {"enabled": True, "mti": mti, "sti": 0})
+                onjobs.append((scen, build_script(40, {t: ("on", 1), t + 9: ("on", 0)})))
+    run_jobs(res, onjobs)
     kc = key_codes()
     routs = machine.run_rust([(s_, sc) for s_, sc, _ in jobs], kc)
     for (scen, script, t), (robs, _e, _r) in zip(jobs, routs):
@@ -271,7 +287,7 @@ def run_shard(spec) -> Result:
         k = 0
         evs = EVENTS if tier == "thorough" else EVENTS[:2] + EVENTS[3:5] + [("wimem", 0xFB, 0x8F), ("wimem", 0xFB, 0x00),
                                                                              ("wimem", 0xFC, 0), ("imem_or", 0xFC, 0x01),
-                                                                             ("imem_or", 0xFC, 0x04)]
+                                                                             ("imem_or", 0xFC, 0x04), ("imem_or", 0xFC, 0x10)]
         places = list(range(6, 6 + window, 2 if tier == "quick" else 1))
         for base in bases:
             for d in range(1, depth + 1):
